@@ -410,6 +410,46 @@ func runC17(r *engine.Run) {
 		})
 	}
 
+	// ---- the string-typed members of the payloads (ResultCode, MessageType, ProtocolVersion, identifiers as
+	// text): the Backend Interfaces specification's own spellings of every result code and message type,
+	// the library's constants, and neighbours of both (case, a trailing character): a string is carried
+	// as it is
+	names := []string{"Success", "MICFailed", "JoinReqFailed", "NoRoamingAgreement", "DevRoamingDisallowed", "RoamingActDisallowed", "ActivationDisallowed",
+		"UnknownDevEUI", "UnknownDevAddr", "UnknownSender", "UnknownReceiver", "Deferred", "XmitFailed", "InvalidFPort", "InvalidProtocolVersion",
+		"StaleDeviceProfile", "MalformedRequest", "FrameSizeError", "Other",
+		"JoinReq", "JoinAns", "RejoinReq", "RejoinAns", "AppSKeyReq", "AppSKeyAns", "PRStartReq", "PRStartAns", "PRStopReq", "PRStopAns", "HRStartReq", "HRStartAns",
+		"HRStopReq", "HRStopAns", "HomeNSReq", "HomeNSAns", "ProfileReq", "ProfileAns", "XmitDataReq", "XmitDataAns", "1.0", "1.1", ""}
+	for _, rc := range []backend.ResultCode{backend.Success, backend.MICFailed, backend.RoamingActDisallowed, backend.UnknownReceiver, backend.Other} {
+		names = append(names, string(rc))
+	}
+	var strs []string
+	for _, n := range names {
+		strs = append(strs, n, strings.ToLower(n), strings.ToUpper(n), n+"A", " "+n)
+	}
+	r.PartDims("strings/named-types", []string{fmt.Sprintf("string:%d (specification spellings, library constants, case and suffix neighbours)", len(strs)), "member{ResultCode, Description, MessageType, ProtocolVersion, SenderID}"}, uint64(len(strs)), func(c *engine.Case) {
+		sv := strs[c.Index]
+		c.Eval()
+		c.NonTrivial()
+		in := backend.PRStopAnsPayload{BasePayloadResult: backend.BasePayloadResult{
+			BasePayload: backend.BasePayload{ProtocolVersion: sv, SenderID: sv, ReceiverID: "010203", TransactionID: 7, MessageType: backend.MessageType(sv)},
+			Result:      backend.Result{ResultCode: backend.ResultCode(sv), Description: sv}}}
+		j, err := json.Marshal(in)
+		if err != nil {
+			c.Fail("strings/marshal", fmt.Sprintf("%q: %v", sv, err), nil)
+			return
+		}
+		var out backend.PRStopAnsPayload
+		if err := json.Unmarshal(j, &out); err != nil {
+			c.Fail("strings/unmarshal", fmt.Sprintf("%s: %v", j, err), nil)
+			return
+		}
+		for name, got := range map[string]string{"ResultCode": string(out.Result.ResultCode), "Description": out.Result.Description, "MessageType": string(out.MessageType), "ProtocolVersion": out.ProtocolVersion, "SenderID": out.SenderID} {
+			if got != sv {
+				c.Fail("strings/"+name+"/changed", fmt.Sprintf("%s %q is encoded as %s and comes back as %q", name, sv, j, got), nil)
+			}
+		}
+	})
+
 	// ---- key envelopes
 	keks := [][]byte{mustHex("000102030405060708090a0b0c0d0e0f101112131415161718191a1b1c1d1e1f"), mustHex("ffeeddccbbaa99887766554433221100ffeeddccbbaa99887766554433221100")}
 	sp := (&engine.Space{}).Dim("kek length{16,24,32}", 3).Dim("kek", 2).Dim("key", 3).Dim("label", 2)
